@@ -22,7 +22,13 @@
     ([levels=False]: [C12_pickle_roundtrip_other_order],
     [C12_pickle_roundtrip_any], [C12_pickle_roundtrip_fresh_names]); (ii) no
     theorem below assumes [last_len = None]: dynamic reordering may be
-    enabled in the receiver, the threshold is restored by the load. *)
+    enabled in the receiver, the threshold is restored by the load.
+
+    The theorems that conclude that a load into an EXISTING manager succeeds
+    assume that this manager has no bound on its number of nodes
+    ([max_nodes = None], the default [sys.maxsize]): with a bound the loader's
+    [find_or_add] can raise [RuntimeError] when the table is full.  A fresh
+    manager ([init]) has no bound. *)
 From DD Require Import Pickle.
 Local Open Scope string_scope.
 
@@ -47,7 +53,7 @@ Proof. exact (pickle_roundtrip_fresh s roots order vorder pf sd). Qed.
     variable order; [frame]: [last_len], the reordering context, the roots
     and the oracle tape are unchanged). *)
 Theorem C12_pickle_roundtrip_same s roots order vorder pf sd :
-  Inv s → Forall (valid s) (roots_values roots) →
+  Inv s → max_nodes s = None → Forall (valid s) (roots_values roots) →
   dump_pickle roots order vorder s = (Ok pf, sd) →
   sd = s ∧
   ∃ s', load_pickle pf true s = (Ok roots, s') ∧
@@ -60,7 +66,7 @@ Proof. exact (pickle_roundtrip_same s roots order vorder pf sd). Qed.
 Theorem C12_pickle_roundtrip_into s roots order vorder pf sd r :
   Inv s → Forall (valid s) (roots_values roots) →
   dump_pickle roots order vorder s = (Ok pf, sd) →
-  Inv r → vars r = vars s → lvl2var r = lvl2var s →
+  Inv r → max_nodes r = None → vars r = vars s → lvl2var r = lvl2var s →
   sd = s ∧
   ∃ roots' r', load_pickle pf true r = (Ok roots', r') ∧
     Inv r' ∧ extends r r' ∧ frame r r' ∧ last_len r' = last_len r ∧
@@ -77,7 +83,7 @@ Proof. exact (pickle_roundtrip_into s roots order vorder pf sd r). Qed.
 Theorem C12_pickle_roundtrip_other_order s roots order vorder pf sd r :
   Inv s → Forall (valid s) (roots_values roots) →
   dump_pickle roots order vorder s = (Ok pf, sd) →
-  Inv r → dom (vars s) ⊆ dom (vars r) →
+  Inv r → max_nodes r = None → dom (vars s) ⊆ dom (vars r) →
   sd = s ∧
   ∃ roots' r', load_pickle pf false r = (Ok roots', r') ∧
     Inv r' ∧ extends r r' ∧ frame r r' ∧
@@ -96,7 +102,7 @@ Proof. exact (pickle_roundtrip_other_order s roots order vorder pf sd r). Qed.
 Theorem C12_pickle_roundtrip_any s roots order vorder pf sd r :
   Inv s → Forall (valid s) (roots_values roots) →
   dump_pickle roots order vorder s = (Ok pf, sd) →
-  Inv r →
+  Inv r → max_nodes r = None →
   sd = s ∧
   ∃ roots' r', load_pickle pf false r = (Ok roots', r') ∧
     Inv r' ∧ frame r r' ∧ last_len r' = last_len r ∧
@@ -122,8 +128,8 @@ Theorem C12_pickle_roundtrip_fresh_names s roots order vorder pf sd :
 Proof. exact (pickle_roundtrip_fresh_names s roots order vorder pf sd). Qed.
 
 (** ** Whole-manager pickle: [_load_manager] (whatever manager [s0] it
-    replaces) restores every table; the computed table is empty and dynamic
-    reordering is off in the new manager. *)
+    replaces) restores every table and the bound [max_nodes]; the computed
+    table is empty and dynamic reordering is off in the new manager. *)
 Theorem C12_manager_roundtrip s vorder mf sd s0 :
   Inv s → dump_manager vorder s = (Ok mf, sd) →
   sd = s ∧
@@ -132,6 +138,7 @@ Theorem C12_manager_roundtrip s vorder mf sd s0 :
     min_free s1 = min_free s ∧ vars s1 = vars s ∧ lvl2var s1 = lvl2var s ∧
     roots s1 = roots s ∧ ite_tab s1 = ∅ ∧
     last_len s1 = None ∧ rctx s1 = false ∧ trig s1 = None ∧
+    max_nodes s1 = max_nodes s ∧
     Inv s1 ∧ ∀ u ρ, denv s1 u ρ = denv s u ρ.
 Proof. exact (manager_roundtrip s vorder mf sd s0). Qed.
 
@@ -236,4 +243,25 @@ Example C12_other_order :
    map_to_list (vars s4) = [(0, 1); (1, 2); (2, 0)] ∧
    (denv s4 (-8) <$> names3) = (denv s (-8) <$> names3) ∧
    (denv s4 6 <$> names3) = (denv s 3 <$> names3)).
+Proof. by vm_compute. Qed.
+
+(** The bound [max_nodes] travels with the whole-manager pickle: manager 0
+    gets the bound 9 (it holds 8 nodes), is dumped, and manager 2 loaded from
+    the file has the bound 9.  With the bound 8 the table of manager 0 is
+    full: loading file 0 back into it still succeeds here (every node of the
+    file is found, none is created), whereas loading it with [levels=False]
+    into manager 3 bounded at its current size fails with [RuntimeError] —
+    the hypothesis [max_nodes r = None] of the theorems above cannot be
+    dropped. *)
+Example C12_max_nodes :
+  let w := fst (step2 ex_world 0 (O1 (OSetMaxNodes (Some 9%positive)))) in
+  let w' := fst (step2 w 0 (ODumpManager 6 [0; 1; 2])) in
+  snd (step2 w' 2 (OLoadManager 6)) = Ok VU ∧
+  max_nodes (world2_get (fst (step2 w' 2 (OLoadManager 6))) 2) = Some 9%positive ∧
+  max_nodes (world2_get (fst (step2 ex_world 2 (OLoadManager 5))) 2) = None ∧
+  (let w3 := fst (step2 ex_world3 3 (O1 (OSetMaxNodes (Some 4%positive)))) in
+   snd (step2 w3 3 (OLoad 0 false)) = Err ERuntime) ∧
+  (let w8 := fst (step2 ex_world 0 (O1 (OSetMaxNodes (Some 8%positive)))) in
+   snd (step2 w8 0 (OLoad 0 true))
+     = Ok (VL [VL [VN 7; VZ (-8)]; VL [VN 3; VZ 3]; VL [VN 9; VZ (-1)]])).
 Proof. by vm_compute. Qed.
